@@ -20,7 +20,15 @@ def _bk(fn, be):
 
 
 def P(v, names, hi=8):
+    # the proofs quantify over ALL positive parameters; the box is only where the native samples are drawn
+    if v.symbolic:
+        return [v.real(n, pos=True) for n in names]
     return [v.real(n, lo=0.01, hi=hi, pos=True) for n in names]
+
+
+def Tm(v, name="t"):
+    """a time t >= 0 (symbolic: any; sampled: up to 5)"""
+    return v.real(name, lo=0) if v.symbolic else v.real(name, lo=0, hi=5)
 
 
 def _ode(name, argnames, rhs, init, nres=1, extra_req=None, tier="quick"):
@@ -30,7 +38,7 @@ def _ode(name, argnames, rhs, init, nres=1, extra_req=None, tier="quick"):
     def h_ode(v):
         from chempy.kinetics import integrated
         fn = getattr(integrated, name)
-        t = v.real("t", lo=0, hi=5)
+        t = Tm(v)
         ps = P(v, argnames)
         if extra_req:
             v.assume(extra_req(*ps))
@@ -63,7 +71,7 @@ def _ode(name, argnames, rhs, init, nres=1, extra_req=None, tier="quick"):
     def h_def(v):
         from chempy.kinetics import integrated
         fn = getattr(integrated, name)
-        t = v.real("t", lo=0, hi=5)
+        t = Tm(v)
         ps = P(v, argnames)
         if extra_req:
             v.assume(extra_req(*ps))
@@ -75,7 +83,7 @@ def _ode(name, argnames, rhs, init, nres=1, extra_req=None, tier="quick"):
     def h_be(v):
         from chempy.kinetics import integrated
         fn = getattr(integrated, name)
-        t = v.real("t", lo=0, hi=5)
+        t = Tm(v)
         ps = P(v, argnames)
         if extra_req:
             v.assume(extra_req(*ps))
@@ -123,7 +131,7 @@ _ode("binary_irrev_cstr", ["k", "r", "p", "fr", "fp", "fv"],
 def _(v):
     """general stoichiometric factor n of the product"""
     from chempy.kinetics.integrated import binary_irrev_cstr as fn
-    t = v.real("t", lo=0, hi=5)
+    t = Tm(v)
     k, r, p, fr, fp, fv = P(v, ["k", "r", "p", "fr", "fp", "fv"])
     n = v.real("n", lo=1, hi=4)
     be = v.backend()
@@ -230,3 +238,18 @@ def _(v):
     check("unary_irrev_cstr", cstr(I.unary_irrev_cstr, 1))
     check("binary_irrev_cstr", cstr(I.binary_irrev_cstr, 2, 1))
     check("binary_irrev_cstr_n3", cstr(I.binary_irrev_cstr, 2, 3), npoints=3)
+
+
+@harness("C17", "dimerization_irrev.start_time", functions=[MOD + ":dimerization_irrev"], div_mode="assume", samples=10)
+def _(v):
+    """the optional start time t0 and the (unused) P0: the curve solves dC/dt = -2 kf C^2 and passes through initial_C at t = t0, whatever P0 is"""
+    from chempy.kinetics.integrated import dimerization_irrev as fn
+    t0 = v.real("t0", lo=-5, hi=5)
+    t = v.real("t", lo=-5, hi=10)
+    v.assume(t >= t0)
+    kf, C0 = P(v, ["kf", "initial_C"])
+    P0 = v.real("P0", lo=0.1, hi=9)
+    d, x = v.deriv(lambda tt: v.call(fn, tt, kf, C0, P0, t0), t)
+    v.prove_identity("ode", d, -2 * kf * x * x, rel=1e-7, abs_=1e-9)
+    v.prove_identity("passes_through_initial_C_at_t0", v.call(fn, t0, kf, C0, P0, t0), C0)
+    v.prove_identity("independent_of_P0", v.call(fn, t, kf, C0, P0, t0), v.call(fn, t, kf, C0, 1, t0))
